@@ -50,7 +50,8 @@ def universe():
     synth = sorted(os.path.join(SYNTH, f) for f in os.listdir(SYNTH) if f.endswith('.json'))
     sv += [('sv', f, v, ef) for f in synth for v in VALIDATORS for ef in (False, True)]
     va = [('va', d, s, ef) for d in docs for s in top for ef in (False, True)]
-    va += [('va', os.path.join(SYNTH, 'doc_a.json'), f, ef) for f in synth for ef in (False, True)]
+    sdocs = [f for f in synth if os.path.basename(f).startswith('doc_')]
+    va += [('va', d_, f, ef) for d_ in sdocs for f in synth if f not in sdocs for ef in (False, True)]
     va += [('va', s_, d_, ef) for s_, d_ in ((schemas[0], docs[0]), (docs[0], docs[0]), (top[0], top[0])) for ef in (False, True)]
     # the definition files are schemas too ("every bundled schema"): two documents each keep the table small
     for s in defs + [x for x in schemas if x.endswith('metaschema.json')]:
@@ -103,10 +104,19 @@ def do_call(c):
                 r = u.valid_against_schema(c[1], c[2], expect_failure=c[3])
         return repr(r)
     except Exception as e:
-        return 'raises:' + type(e).__name__
+        # "the schema / validation error raised": which error it is belongs to the outcome - the keyword that failed, where
+        # in the document, and the message (after a tab; klass() gives the bare class)
+        detail = ''
+        if isinstance(e, jsonschema.exceptions._Error):
+            detail = '\t%s@%s: %s' % (e.validator, '/'.join(str(x) for x in e.absolute_path), str(e.message)[:160])
+        return 'raises:' + type(e).__name__ + detail
     finally:
         if updir:
             os.chdir(here)
+
+
+def klass(o):
+    return o.split('\t')[0]
 
 
 _UTILS_SNAP = None
@@ -173,8 +183,8 @@ def examine(case):
     if case.get('fact') == 'outcome-class':
         c = tuple(case['calls'][0])
         o = run_fresh([c])[0]
-        if o not in ('True', 'False', 'raises:ValidationError', 'raises:SchemaError'):
-            out.append(V('references-resolve', ['outcome-class', c[0], o.split(':')[-1]], case, o))
+        if klass(o) not in ('True', 'False', 'raises:ValidationError', 'raises:SchemaError'):
+            out.append(V('references-resolve', ['outcome-class', c[0], klass(o).split(':')[-1]], case, o))
         return out
     for raw in case['calls']:
         c = tuple(raw)
@@ -188,7 +198,7 @@ def examine(case):
             cause = 'after-same-key-other-expect_failure' if any(h[3] != c[3] for h in earlier) else \
                 'after-same-call' if earlier else 'after-other-keys'
             out.append(V('same-as-fresh-process', ['history-dependent', c[0], cause, 'got-' + got.split(':')[0],
-                                                   'fresh-' + want.split(':')[0]],
+                                                   'fresh-' + want.split(':')[0]] + (['another-error'] if klass(got) == klass(want) else []),
                          {'calls': list(hist), 'fresh': {json.dumps(list(c)): want}}, got, want))
             break
     return out
@@ -302,7 +312,7 @@ def run(ctx):
     fresh = ctx.extra.pop('fresh')
     if len(fresh) != len(allcalls):
         raise HarnessError('reference table incomplete: %d of %d' % (len(fresh), len(allcalls)))
-    ctx.extra['reference_outcomes'] = {k: sum(1 for v in fresh.values() if v == k) for k in sorted(set(fresh.values()))}
+    ctx.extra['reference_outcomes'] = {k: sum(1 for v in fresh.values() if klass(v) == k) for k in sorted(set(klass(v) for v in fresh.values()))}
     # 2. fixed facts about the bundled samples
     for d in docs:
         name = os.path.basename(d)
@@ -313,7 +323,7 @@ def run(ctx):
         invalid = '_invalid' in name
         a = fresh[json.dumps(['va', d, schema, False])]
         b = fresh[json.dumps(['va', d, schema, True])]
-        ok = (a == 'False' and b == 'raises:ValidationError') if invalid else (a == 'True' and b == 'True')
+        ok = (a == 'False' and klass(b) == 'raises:ValidationError') if invalid else (a == 'True' and b == 'True')
         ctx.count()
         ctx.label('bundled-sample-fact')
         if not ok:
@@ -326,11 +336,11 @@ def run(ctx):
     for c in allcalls:
         o = fresh[json.dumps(list(c))]
         ctx.count()
-        if o in allowed:
+        if klass(o) in allowed:
             continue
-        if o == 'raises:FileNotFoundError' and c[0] == 'va' and '\\' in c[1]:
+        if klass(o) == 'raises:FileNotFoundError' and c[0] == 'va' and '\\' in c[1]:
             continue            # a DOCUMENT path spelled with backslashes is not looked up in the bundle: no such file here
-        ctx.violation(V('references-resolve', ['outcome-class', c[0], o.split(':')[-1]],
+        ctx.violation(V('references-resolve', ['outcome-class', c[0], klass(o).split(':')[-1]],
                         {'calls': [list(c)], 'fresh': {}, 'fact': 'outcome-class'}, o, sorted(allowed)))
     ctx.label('outcome-class-facts', len(allcalls))
     # 3. histories
@@ -381,6 +391,13 @@ def run(ctx):
                     hists.append([a, b])
                     n_conf += 1
     ctx.extra['confusable_key_pairs'] = n_conf
+    # the harness-made files are few: ALL ordered pairs of validations among them (two schemas without an id sharing an
+    # internal pointer, validator classes that disagree ...)
+    sva = [c for c in va if c[2].startswith(SYNTH)]
+    for a in sva:
+        for b in sva:
+            if a != b:
+                hists.append([a, b])
     # eviction histories: x, 21 other keys of the same function, x again (both expectations)
     for x in rng.sample(allcalls, 12 if not thorough else 60):
         pool = [c for c in (va if x[0] == 'va' else sv) if key_of(c) != key_of(x) and not c[3]]
